@@ -1,36 +1,36 @@
 import json, os, shutil, glob
-W='l'
+W='m'
 rows = {
- 'C01': ("events of 258049..262143 bytes used in place inside the driver's cached read buffer (copy elision with a wrong threshold)",
-         "one event in the 4 KiB window just under 256 KiB with buffer-referencing values, followed by more packets before delivery",
-         "C01: count, panic, stream-result"),
- 'C02': ("FORMAT_DESCRIPTION events after the first skipped: checksum setting frozen at the first file's",
-         "a dump that crosses into a file with a different checksum setting and holds a BEGIN..COMMIT transaction there",
-         "C02: early-delivery, grouping, rollback-delivered"),
- 'C03': ("in-transaction flag kept in the Streamer across Stream calls (same change as C02-j, judged on labels)",
-         "a Stream call that ends inside an open transaction, then the same Streamer re-pointed with SetBinlogPosition to a delivered end label that is followed by a unit without BEGIN",
-         "C03: resume-suffix - **missed at first** (C03 resumed only with fresh Streamers; a third of its two-call cases now re-point the same Streamer to one of the end labels it delivered, after a call that ended at an arbitrary point or with a refused transaction)"),
- 'C04': ("handler error not treated as a failure when the context is already cancelled: position moves past the refused transaction",
-         "a handler that returns an error while the caller's context is cancelled, then a retry",
-         "C04: resume-coordinate"),
- 'C05': ("handler error equal to context.Canceled swallowed by commit; the loop waits for ctx.Done()",
-         "a handler returning the value context.Canceled while Stream's own context is alive",
-         "C05: stream-hang"),
- 'C06': ("rows events for the unmapped table id 0x00ffffff skipped as 'dummy events' instead of failing",
-         "a rows event with real rows for table id 0xffffff that no table map announced",
-         "C06: stream-nil-on-failure - **missed at first** (the decode-failure unit of C06 now also comes as a rows event for a table id no table map announced: 0xffffff, 2^32-1, 2^48-1, 1, random)"),
- 'C07': ("format kept in the Streamer across attempts: the artificial ROTATE that opens a dump is decoded with the previous attempt's checksum setting",
-         "checksum setting of the connection differing from the one the previous attempt saw; an attempt that ends before a real ROTATE; a further attempt",
-         "C07: file"),
- 'C08': ("absent columns of partial row images share one cached *ColumnData per table column",
-         "partial row images with the same column absent in two rows / transactions and a consumer that writes the delivered cell",
-         "C08: later-delivery-corrupted, scribble-propagated"),
- 'C15': ("column-count offset of a rows event taken from the post-header length instead of var_header_len",
-         "a v2 rows event with extra row info (var_header_len > 2)",
-         "C15: attribution, panic"),
- 'C17': ("packets whose next_position lies before the resume offset dropped before the validity gate at the start of a resumed dump",
-         "a malformed packet of at least 19 bytes right after the opening ROTATE/FORMAT_DESCRIPTION of a dump that starts above offset 4, with next_position within 1..resume offset",
-         "C17: accepted-malformed"),
+ 'C01': ("per-dump table cache capped at 1024 entries and emptied when a new id arrives at the cap",
+         "a dump that has seen exactly k*1024 table ids, then a multi-table statement whose second table map carries the next new id",
+         "C01: count, stream-result"),
+ 'C02': ("query events whose default database is mysql / information_schema / performance_schema / sys skipped before classification, BEGIN/COMMIT included",
+         "a transaction logged by a session whose default database is a server schema",
+         "C02: early-delivery, grouping, rollback-delivered - **missed at first** (server schema names are now among the default databases of query events and among the table schemas)"),
+ 'C03': ("file name of the dump's opening artificial ROTATE adopted with a guess about a trailing CRC",
+         "CRC32 stream whose opening rotate's checksum bytes read like '.digits' or four digits (about 1 start in 7800)",
+         "C03: chain, crash-restart-exactly-once, resume-suffix"),
+ 'C04': ("STOP_EVENT treated as end of stream: parseEvents returns at it",
+         "a file that ends with a STOP event, the next file announced only by the artificial rotate, transactions in it",
+         "C04: lost"),
+ 'C05': ("start offsets outside 0..2^32-1 refused after the connection is up and before its close is deferred",
+         "SetBinlogPosition with an Offset of 2^32 or more, connection attempt succeeds",
+         "C05: goroutine-leak:watcher, socket-not-closed - **missed at first** (one C05 scenario in sixteen now adds a multiple of 2^32 to the offset given to SetBinlogPosition; the dump request carries the low 32 bits, so the master sees the same coordinate)"),
+ 'C06': ("undecodable FORMAT_DESCRIPTION that is not the first of the attempt logged and ignored",
+         "a FORMAT_DESCRIPTION of binlog version 3 / header length < 19 after a valid one, then a clean end",
+         "C06: stream-nil-on-failure (through the undecodable-event variants added in wave j)"),
+ 'C07': ("DDL query inside BEGIN..XID acts as commit point (same line as C03-i/C04-i), judged on the dump request",
+         "attempt ending between an in-transaction DDL and its XID, then another attempt",
+         "C07: offset"),
+ 'C08': ("per-event buffers from a sync.Pool, returned by a finalizer on the decoded StreamEvent",
+         "a consumer that keeps only delivered value slices and drops the Transaction, a GC cycle, a later packet",
+         "C08: mutated-after-delivery - **missed at first** (an eighth of the C08 cases run a consumer that keeps the value slices only and forces garbage collections between deliveries and at the end)"),
+ 'C15': ("mapper failure tolerated for schema 'mysql': table map cached without mapper table, its rows events skipped",
+         "a table of schema mysql whose lookup fails, rows events for it",
+         "C15: attribution"),
+ 'C17': ("reader splits a packet that is an exact concatenation of complete events and serves the pieces",
+         "an over-long packet consisting of two or more well-formed events back to back",
+         "C17: accepted-malformed, partial-delivery - **missed at first** (a third of the 'well-formed event extended' payloads are now extended by one or two further complete events instead of random bytes)"),
 }
 for p,(chg,needs,caught) in rows.items():
     src=f'/tmp/wt-{p}-{W}/_seeded'
